@@ -163,3 +163,22 @@ package security
 //@     ghost grantedG := $result
 //@   at call append#1 before
 //@     assert [C16:only-datasets-granted-for-reading-are-listed] grantedG && len($arg1) == 1 && $arg1[0].Name == datasets[$i1 + 1].Name
+
+// ---------------------------------------------------------------------------
+// C14: login providers are looked up by lower-cased name; the registry reloaded at start-up is keyed the same way
+//@ spec lower(s string) string
+//@ axiom lower_idempotent: forall s string :: lower(lower(s)) == lower(s)
+//@ assumed strings.ToLower
+//@   pure
+//@   ensures result == lower(s)
+//@ assumed (*TokenProviders).toProvider
+//@   pure
+//@ assumed (*ProviderManager).ListProviders
+//@   pure
+//@ unit security.NewTokenProviders
+//@   prop C14
+//@   requires providerManager != nil && logger != nil
+//@   at return
+//@     assert [C14:reloaded-login-providers-are-registered-under-the-lower-cased-name-every-lookup-uses] forall k string :: has(providers, k) ==> lower(k) == k
+//@   loop 1
+//@     invariant forall k string :: has(providers, k) ==> lower(k) == k
